@@ -163,7 +163,7 @@ def one_kill(args):
     ref = cc.RefCrawl(site, opts)
     ref2 = cc.RefCrawl(site, opts, run_index=1)      # the rerun: a server-side outage ('flaky' pages) is over
     ids = cc.Ids()
-    start = site.start_urls()
+    start = [cc.norm(u, '') or u for u in site.start_urls()]       # the table stores the normal form of what the user typed
     t1 = [e for e in ev1 if e['op'] not in ('server-request', 'exit')]
     t2 = [e for e in ev2 if e['op'] not in ('server-request', 'exit')]
     killed = rc1 == 77
